@@ -2,6 +2,7 @@ package main
 
 import (
 	"context"
+	"fmt"
 	"runtime"
 	"strings"
 	"sync/atomic"
@@ -384,6 +385,78 @@ func cmdLife() {
 	}
 }
 
+type lateJobResult struct {
+	Kind      string `json:"kind"`
+	Round     int    `json:"round"`
+	WaitOK    bool   `json:"wait_returned"`
+	LateExecs int64  `json:"execs_begun_after_wait"`
+	Execs     int64  `json:"execs"`
+}
+
+type slowTrigger struct {
+	entered chan struct{}
+	release chan struct{}
+	n       atomic.Int64
+}
+
+func (t *slowTrigger) NextFireTime(prev int64) (int64, error) {
+	if t.n.Add(1) == 1 {
+		return quartz.NowNano() - int64(time.Millisecond), nil // due at once
+	}
+	select {
+	case t.entered <- struct{}{}:
+	default:
+	}
+	<-t.release
+	return quartz.NowNano() + int64(time.Hour), nil
+}
+func (t *slowTrigger) Description() string { return "slow" }
+
+// unbounded mode: the loop is inside fetchAndReschedule of a due job (its trigger is slow) when Stop comes;
+// the job is then handed to a fresh goroutine while the loop exits.  Whatever begins must be over when Wait returns.
+func runLateJob(round int) lateJobResult {
+	res := lateJobResult{Kind: "latejob", Round: round}
+	s, _ := quartz.NewStdScheduler(quartz.WithOutdatedThreshold(time.Minute))
+	tr := &slowTrigger{entered: make(chan struct{}, 1), release: make(chan struct{})}
+	var waitDone atomic.Bool
+	var late, execs atomic.Int64
+	s.ScheduleJob(detail("lj", func(ctx context.Context) error {
+		execs.Add(1)
+		if waitDone.Load() {
+			late.Add(1)
+		}
+		time.Sleep(time.Millisecond)
+		if waitDone.Load() {
+			late.Add(1)
+		}
+		return nil
+	}), tr)
+	s.Start(context.Background())
+	select {
+	case <-tr.entered:
+	case <-time.After(5 * time.Second):
+		close(tr.release)
+		stopAndWait(s, 3*time.Second)
+		return res
+	}
+	s.Stop()
+	done := make(chan struct{})
+	go func() {
+		ctx, c := context.WithTimeout(context.Background(), 6*time.Second)
+		s.Wait(ctx)
+		res.WaitOK = ctx.Err() == nil
+		c()
+		waitDone.Store(true)
+		close(done)
+	}()
+	time.Sleep(time.Duration(round%4) * 50 * time.Microsecond)
+	close(tr.release)
+	<-done
+	time.Sleep(15 * time.Millisecond)
+	res.LateExecs, res.Execs = late.Load(), execs.Load()
+	return res
+}
+
 // poolstop <seed> <rounds>: the pool-shutdown rounds in a process of their own (the goroutine profile is
 // process-wide; a leak left by anything else must not hide or fake a verdict)
 func cmdPoolStop() {
@@ -395,4 +468,14 @@ func cmdPoolStop() {
 			return // a stuck goroutine would be counted again in every later round
 		}
 	}
+	func() {
+		defer func() {
+			if r := recover(); r != nil {
+				emit(map[string]any{"kind": "latejob", "round": -1, "panic": fmt.Sprint(r)})
+			}
+		}()
+		for r := 0; r < 4*rounds; r++ {
+			emit(runLateJob(r))
+		}
+	}()
 }
